@@ -42,6 +42,8 @@ def run(rng, tier, res=None):
     names = sorted(dist.DISTANCES)
     ncases = (28 * BOOST) if tier == "quick" else 4 * len(names)
     tmp = tempfile.mkdtemp(prefix="opfverif-persist-")
+    cwd0 = os.getcwd()
+    os.chdir(tmp)
     saved_states = {}
     last_dotted = {}
 
@@ -89,6 +91,16 @@ def run(rng, tier, res=None):
                 res.hit("constructed_from_file_then_setter")
             elif pre:
                 o.pre_computed_distance = True; o.pre_distances = M
+            elif case % 3 == 1 and Xt.dtype == np.float64:
+                # a model that holds a matrix (read from a file at construction) but was switched to its metric through the
+                # public flag before training: flag and matrix are independent state, both must come back as saved
+                dfile2 = os.path.join(tmp, f"held{case % 3}.csv")
+                np.savetxt(dfile2, np.array([[rng.uniform(0.5, 9.0) for _ in range(len(X))] for _ in range(len(X))]), delimiter=",")
+                kwh = {"distance": metric, "pre_computed_distance": dfile2}
+                o = {"sup": lambda: SupervisedOPF(**kwh), "semi": lambda: SemiSupervisedOPF(**kwh),
+                     "knn": lambda: KNNSupervisedOPF(max_k=2, **kwh), "unsup": lambda: UnsupervisedOPF(min_k=1, max_k=3, **kwh)}[kind]()
+                o.pre_computed_distance = False
+                res.hit("matrix_held_flag_off")
             It, Iu, Iq = np.arange(n), np.arange(n, n + 2), np.arange(n + 2, n + 6)
             if kind == "sup":
                 o.fit(Xt, Y, I_train=It if pre else None); pq = lambda m: m.predict(Q, I_val=Iq if pre else None)  # noqa
@@ -109,7 +121,9 @@ def run(rng, tier, res=None):
             p0 = pq(o)
             s0 = model_state(o)
             # a path that is written again and again / names that differ only after their last dot
-            path = os.path.join(tmp, "model.pkl" if case % 4 == 0 else (f"m{case}.pkl" if case % 4 == 1 else f"forest.run{case % 2}.v{case}"))
+            path = ("model.pkl" if case % 8 == 0 else os.path.join(tmp, "model.pkl")) if case % 4 == 0 else os.path.join(tmp, (f"m{case}.pkl" if case % 4 == 1 else f"forest.run{case % 2}.v{case}"))
+            if not os.path.isabs(path):
+                res.hit("bare_file_name_in_cwd")       # a file name without a directory part, in the working directory
             sib = None
             if case % 4 >= 2:
                 sib = last_dotted.get(case % 2)      # the previous model saved under the same stem, another suffix
@@ -193,5 +207,6 @@ def run(rng, tier, res=None):
         res.hit("persist_" + kind); res.hit("persist_pre" if pre else "persist_features")
         if case < 2:
             res.samples.append({"case": line, "predictions": repr(p0)[:120]})
+    os.chdir(cwd0)
     shutil.rmtree(tmp, ignore_errors=True)
     return res
